@@ -189,6 +189,20 @@ def peephole_tables(ctx, chain):
     ctx.floor('peephole Op->Operator tables', n_tabs, 2)
 
 
+def _unary_eval_cannot_raise(repo):
+    """The premise of the exemption above, re-checked on every run:
+    UnaryOp.eval raises nothing arithmetic itself."""
+    f = repo.func('qbee.expr', 'UnaryOp.eval')
+    for r in ast.walk(f.node):
+        if isinstance(r, ast.Raise) and r.exc is not None:
+            e = r.exc.func if isinstance(r.exc, ast.Call) else r.exc
+            name = (dotted(e) or '').split('.')[-1]
+            if name in ('OverflowError', 'ZeroDivisionError',
+                        'ArithmeticError', 'ValueError'):
+                return False
+    return True
+
+
 def fold_sites(ctx):
     repo = ctx.repo
     rule = 'C02.fold-site-guarded'
@@ -250,7 +264,7 @@ def fold_sites(ctx):
                     break
             ctx.instance(rule, construct,
                          sample={'guarded': guarded, 'line': n.lineno})
-            if construct in FOLD_EXEMPT:
+            if construct in FOLD_EXEMPT and _unary_eval_cannot_raise(repo):
                 ctx.observe(f'fold site exempt: {construct}: '
                             f'{FOLD_EXEMPT[construct]}')
                 continue
